@@ -57,6 +57,21 @@ def _install_sym_extensions():
     Sym.__float__ = _sym_float
     Sym.__getitem__ = lambda self, k: self          # `e[e < LIMIT]` inside an error message
     Sym.__str__ = lambda self: "<sym>"
+    base_ufunc = Sym.__array_ufunc__
+
+    def array_ufunc(self, ufunc, method, *inputs, **kwargs):
+        # in-place `pos /= XKMPER` on an object array: out=(pos,)
+        import numpy as np
+        out = kwargs.get("out")
+        if method == "__call__" and out is not None and len(out) == 1 and isinstance(out[0], np.ndarray) \
+                and out[0].dtype == object and set(kwargs) <= {"out"}:
+            r = st._elementwise(ufunc, inputs)
+            out[0][...] = r
+            return out[0]
+        return base_ufunc(self, ufunc, method, *inputs, **kwargs)
+    if not getattr(Sym, "_sgp4_ext", False):
+        Sym.__array_ufunc__ = array_ufunc
+        Sym._sgp4_ext = True
 
 
 class ModeConst:
@@ -140,21 +155,23 @@ class Rec:
         if not _is_num(value):
             return value
         e = E(value)
-        if e.op == "var":
+        if kind == "o":
+            return self.fresh(kind, label, e)
+        if e.op == "var" and (kind == "g" or e.args[0].startswith("r:")):
             return value if isinstance(value, Sym) else Sym(e)
-        if e.op != "lit" and e.id in self.memo:
+        if e.op not in ("lit", "var") and e.id in self.memo:
             return self.memo[e.id]
         s = self.fresh(kind, label, e)
-        if e.op != "lit":
+        if e.op not in ("lit", "var"):
             self.memo[e.id] = s
         return s
 
-    def cut_return(self, name, r):
+    def cut_return(self, name, r, kind="r"):
         if isinstance(r, tuple):
-            return tuple(self.cut("r", "%s.%d" % (name, i), x) for i, x in enumerate(r))
+            return tuple(self.cut(kind, "%s.%d" % (name, i), x) for i, x in enumerate(r))
         if isinstance(r, dict):
-            return {k: self.cut("r", "%s.%s" % (name, k), x) for k, x in r.items()}
-        return self.cut("r", name, r)
+            return {k: self.cut(kind, "%s.%s" % (name, k), x) for k, x in r.items()}
+        return self.cut(kind, name, r)
 
 
 REC = [None]
@@ -188,7 +205,7 @@ def traced_class(cls, entry=None, replace=None):
             ns[name] = replace[name]
         elif isinstance(fn, types.FunctionType) and name != entry and not (name.startswith("__") and name.endswith("__")):
             ns[name] = wrap(name, fn)
-    return type("Traced" + cls.__name__, (cls,), ns)
+    return type(cls.__name__, (cls,), ns)
 
 
 class SymSource:
@@ -223,7 +240,7 @@ class Leaf:
 def _label(ex):
     msg = str(ex.args[0]) if ex.args else ""
     msg = re.split(r"[%:]", msg)[0].strip()
-    return ("%s:%s" % (type(ex).__name__, msg))[:70]
+    return ("%s:%s" % (type(ex).__name__, msg.replace('"', "'")))[:100]
 
 
 def run_path(fn, schedule, max_decisions):
@@ -233,7 +250,9 @@ def run_path(fn, schedule, max_decisions):
     FLOATED[0] = 0
     try:
         try:
-            fn()
+            r = fn()
+            if r is not None:
+                rec.cut_return("", r, kind="o")
             outcome = "ok"
         except (TraceError, LoopBound):
             raise
@@ -328,7 +347,7 @@ def final_names(keys):
     """internal keys 'a:attr#k', 'g:callee.param#k', 'r:callee[.i]#k', 'i:name' -> Lean identifiers"""
     vmax = {}
     for k in keys:
-        if k[0] in "agr":
+        if k[0] in "agro":
             base, ver = k.rsplit("#", 1)
             vmax[base] = max(vmax.get(base, 0), int(ver))
     names = {}
@@ -366,6 +385,12 @@ def final_names(keys):
                 n += "_" + ver
             if not claim(k, ident(n)):
                 raise TraceError("name clash on return value " + k)
+    for k in sorted(keys):
+        if k.startswith("o:"):
+            base, ver = k.rsplit("#", 1)
+            n = "out" + ("_" + base[3:] if base[3:] else "") + ("_" + ver if vmax[base] > 1 else "")
+            if not claim(k, ident(n)):
+                raise TraceError("name clash on output " + k)
     for k in sorted(keys):
         if k.startswith("g:"):
             base, ver = k.rsplit("#", 1)
@@ -411,7 +436,7 @@ def emit_def(name, tree, vn, kind, doc):
         binders += " (%s : α)" % " ".join(nums)
     if modes:
         binders += " (%s : Nat)" % " ".join(modes)
-    ty = {"num": "α", "mode": "Nat", "bool": "Bool", "str": "String"}[kind]
+    ty = {"num": "α", "mode": "Nat", "bool": "Bool", "str": "String", "flag": "Bool"}[kind]
     em = Em(vn)
     cnt = em.uses(tree_exprs(tree))
 
@@ -419,6 +444,8 @@ def emit_def(name, tree, vn, kind, doc):
         if t[0] == "val":
             if kind == "str":
                 return '%s"%s"' % (ind, t[1])
+            if kind == "flag":
+                return "%s%s" % (ind, "true" if t[1] else "false")
             lets = []
             s = em.term(t[1], cnt, lets, ind)
             return "\n".join(lets + [ind + s])
@@ -463,6 +490,13 @@ def emit_entry(prefix, title, tree, out, index, extra_keys=()):
         lines, nums, modes = emit_def("%s_%s" % (prefix, vn[k]), t, vn, kind, "%s: stage `%s`" % (title, k))
         out.extend(lines)
         index.append(("%s_%s" % (prefix, vn[k]), nums, modes))
+        # is the store reached on every path that returns normally?  if not: under which decisions
+        t = project(tree, lambda lf, k=k: (1 if k in lf.ev else (0 if lf.outcome == "ok" else None)))
+        if t != ("val", 1):
+            lines, nums, modes = emit_def("%s_%s_stored" % (prefix, vn[k]), t, vn, "flag",
+                                          "%s: is `%s` stored (on the paths that return normally)" % (title, k))
+            out.extend(lines)
+            index.append(("%s_%s_stored" % (prefix, vn[k]), nums, modes))
     t = project(tree, lambda lf: lf.outcome)
     lines, nums, modes = emit_def("%s_outcome" % prefix, t, vn, "str", "%s: normal return or the exception raised" % title)
     out.extend(lines)
@@ -573,7 +607,8 @@ def generate():
             self._ecosE = Sym(Expr("var", "i:newton_ecosE"))
             self._esinE = Sym(Expr("var", "i:newton_esinE"))
 
-        TK = traced_class(orbital._Keplerians, entry=None,
+        KEP = orbital._Keplerians
+        TK = traced_class(KEP, entry=None,
                           replace={"_get_timedelta_in_minutes": stub_time, "_iterate_newton_raphson": stub_newton})
         P.set(orbital, "_Keplerians", TK)
         params = SymSource("p_", fixed={"t_0": T}, mode_attrs=("mode",))
@@ -581,7 +616,7 @@ def generate():
         def run_prop():
             s = orbital._SGDP4.__new__(orbital._SGDP4)
             object.__setattr__(s, "_params", params)
-            s.propagate(T)
+            return s.propagate(T)
         tree, n = enumerate_paths(run_prop)
         vn = emit_entry("kep", "_SGDP4.propagate / _Keplerians.calculate", tree, out, index)
         snaps = [lf.snap["newton"] for lf in leaves(tree) if "newton" in lf.snap]
@@ -593,7 +628,7 @@ def generate():
                 raise TraceError("the Kepler iteration is entered with different attribute versions on different paths")
 
         # ---- _Keplerians._iterate_newton_raphson, pass by pass
-        TN = traced_class(orbital._Keplerians, entry="_iterate_newton_raphson")
+        TN = traced_class(KEP, entry="_iterate_newton_raphson")
         rng = []
 
         def newton_trace(passes, schedule):
@@ -617,7 +652,7 @@ def generate():
                 for a, nm in snap.items():
                     object.__setattr__(o, a, Sym(Expr("var", "i:" + nm)))
                 object.__setattr__(o, "_params", params)
-                orbital._Keplerians._iterate_newton_raphson(o)
+                KEP._iterate_newton_raphson(o)
             try:
                 Q.set(orbital, "range", fake_range)
                 Q.set(orbital, "np", NpProxy(np, {"fmod": fmod, "array": array}))
@@ -679,7 +714,15 @@ def generate():
         keys = set()
         for d in (first, later):
             keys.update(free_vars(d.values()))
-        vn2 = final_names(keys)
+        vn2 = {}
+        for k in keys:
+            if k.startswith("i:"):
+                vn2[k] = k[2:]
+            else:
+                base, ver = k.rsplit("#", 1)
+                vn2[k] = base[2:].lstrip("_") + {"1": "", "2": "_next"}[ver]
+        if len(set(vn2.values())) != len(vn2):
+            raise TraceError("Newton: symbol name clash")
         for tag, d in (("first", first), ("later", later)):
             for nm in sorted(d):
                 if tag == "later" and nm in ("epw_init", "capu_init"):
